@@ -113,7 +113,9 @@ func c09SockSession(args []string, _ []byte) string {
 
 	cl := client.NewCqlClient(ln.Addr().String(), nil)
 	cl.Compression = compressionOf(spec.Compression)
-	cl.ReadTimeout = 3 * T
+	// the library's own per-request timeout must never decide this session (2500 requests of 16 KiB drained one by one on a
+	// saturated machine outlive 30 s); a response that is not delivered is caught by the harness's bound on Receive
+	cl.ReadTimeout = 60 * T
 	cl.MaxInFlight = spec.N
 	cl.MaxPending = spec.MaxPending
 	ctx, cancel := context.WithCancel(context.Background())
